@@ -548,6 +548,17 @@ def lean_pattern(p):
                               for seq in alts)
 
 
+_SAML = "urn:oasis:names:tc:SAML:2.0:assertion"
+_SAMLP = "urn:oasis:names:tc:SAML:2.0:protocol"
+WELL_KNOWN = [
+    ("Response", _SAMLP, "Response"), ("Status", _SAMLP, "Status"), ("StatusCode", _SAMLP, "StatusCode"),
+    ("AuthzDecisionQuery", _SAMLP, "AuthzDecisionQuery"), ("Assertion", _SAML, "Assertion"), ("Issuer", _SAML, "Issuer"),
+    ("Subject", _SAML, "Subject"), ("NameID", _SAML, "NameID"), ("Action", _SAML, "Action"),
+    ("aID", "", "ID"), ("aVersion", "", "Version"), ("aIssueInstant", "", "IssueInstant"), ("aValue", "", "Value"),
+    ("aResource", "", "Resource"), ("aNamespace", "", "Namespace"),
+]
+
+
 def particle_term(p):
     if p["kind"] == "leaf":
         return ".leaf [%s] %d %s" % (", ".join(p["syms"]), p["lo"], "none" if p["hi"] is None else "(some %d)" % p["hi"])
@@ -614,6 +625,12 @@ def render(t):
     w("def typeNames : List (List Char × TypeRef) := [")
     w(",\n".join("  (%s, %s)" % (lean_chars(k), v) for k, v in t.type_names))
     w("]")
+    w("")
+    w("/- interned names of a few well-known elements / attributes, for hand-written example documents -/")
+    w("namespace WK")
+    for label, ns, local in WELL_KNOWN:
+        w("def %s : QN := ⟨%d, %d⟩" % (label, t.ns_id.get(ns, 1), t.name_id.get((ns, local), 0)))
+    w("end WK")
     w("")
     w("def schema : Schema :=")
     w("  { types := types, elems := elems, globals := globals, gattrs := gattrs, typeNames := typeNames,")
